@@ -142,7 +142,7 @@ func cmdCheck(args []string) {
 	}
 	// solve in parallel
 	var wg sync.WaitGroup
-	sem := make(chan struct{}, 6)
+	sem := make(chan struct{}, 8)
 	for _, o := range obls {
 		wg.Add(1)
 		go func(o *Obligation) {
@@ -163,8 +163,12 @@ func cmdCheck(args []string) {
 			if len(o.Splits) > 0 && !thorough {
 				first = 12
 			}
-			o.Res = solve(o.QueryFile, first, *seed, thorough)
-			if (o.Res.Status == "timeout" || o.Res.Status == "unknown") && len(o.Splits) > 0 {
+			if o.ExpectSat {
+				first = 20 // a cover that no solver reaches in 20 s counts as not reached; its group needs one member only
+			}
+			// a cover needs one model (reachability), not agreement of all solvers
+			o.Res = solve(o.QueryFile, first, *seed, thorough && !o.ExpectSat)
+			if (o.Res.Status == "timeout" || o.Res.Status == "unknown") && len(o.Splits) > 0 && !o.ExpectSat {
 				o.Res = solveSplit(o, q, qdir, timeout, *seed)
 			}
 			if o.Res.Status == "sat" && !o.ExpectSat && !thorough {
